@@ -135,7 +135,9 @@ func (lex *Lexer) Lex() *token.Token {
 
         html := |*
             any_line+ -- '<?' => {
-                lex.ungetStr("<")
+                if lex.te < lex.pe {
+                    lex.ungetStr("<")
+                }
                 lex.setTokenPosition(tkn)
                 tok = token.T_INLINE_HTML;
                 fbreak;
